@@ -1,5 +1,101 @@
-/- Line-protocol driver for the C15 model (stub until the model exists). -/
-import ForML.Model.Sexp
-open ForML
+/- Line-protocol driver for the C15 model (ForML.Model.Entry).
 
-def main : IO Unit := driverLoop (fun _ => .atom "no-model")
+  (match (q…) (e…))                                   → (false) | (true none) | (true (i…))
+  (reader legacy|fixed dense|frame NROWS ((n k)…) ((n k)…))
+        entry data = symbolic NROWS × |e| matrix          → missing | index-error | (data dense|frame (col…)…)
+        term ::= (c ROW COL) | (k KIND term)
+  (take rows|cols dense|frame NCOLS ((int…)…) (idx…))  → index-error | (ok (row…) (col…))
+  (slicer dense|frame NCOLS ((int…)…) NFEATURES none|NLABELS)
+                                                       → index-error | (ok (row…) (scalar (v…))|(vector (row…)))
+-/
+import ForML.Model.Sexp
+import ForML.Model.Entry
+open ForML ForML.Entry
+
+inductive Term where
+  | cell (r c : Nat)
+  | cast (k : Kind) (t : Term)
+
+def kindName : Kind → String
+  | .boolean => "boolean" | .integer => "integer" | .float => "float" | .decimal => "decimal"
+  | .string => "string" | .date => "date" | .timestamp => "timestamp"
+
+def kind? : Sexp → Option Kind
+  | .atom "boolean" => some .boolean | .atom "integer" => some .integer | .atom "float" => some .float
+  | .atom "decimal" => some .decimal | .atom "string" => some .string | .atom "date" => some .date
+  | .atom "timestamp" => some .timestamp | _ => none
+
+def Term.toSexp : Term → Sexp
+  | .cell r c => .list [.atom "c", Sexp.ofNat r, Sexp.ofNat c]
+  | .cast k t => .list [.atom "k", .atom (kindName k), t.toSexp]
+
+def field? : Sexp → Option Field
+  | .list [n, k] => do pure ⟨← n.nat?, ← kind? k⟩
+  | _ => none
+
+def fields? : Sexp → Option (List Field)
+  | .list xs => xs.mapM field?
+  | _ => none
+
+def rows? : Sexp → Option (List (List Int))
+  | .list xs => xs.mapM Sexp.intList?
+  | _ => none
+
+def impl? : Sexp → Option Bool   -- true = dense
+  | .atom "dense" => some true | .atom "frame" => some false | _ => none
+
+def mkTab {α : Type} (dense : Bool) (ncols : Nat) (rows : List (List α)) : Tab α :=
+  if dense then .dense ⟨rows, ncols⟩ else .frame ⟨transposeN ncols rows, rows.length⟩
+
+def ofMatrix {α : Type} (f : α → Sexp) (m : List (List α)) : Sexp := .list (m.map (fun r => .list (r.map f)))
+
+def rectangular {α : Type} (ncols : Nat) (rows : List (List α)) : Bool := rows.all (·.length == ncols)
+
+def stepC15 : Sexp → Sexp
+  | .list [.atom "match", q, e] =>
+    match q.natList?, e.natList? with
+    | some q, some e =>
+      match matchEntry q e with
+      | (false, _) => .list [.atom "false"]
+      | (true, none) => .list [.atom "true", .atom "none"]
+      | (true, some idx) => .list [.atom "true", Sexp.ofNats idx]
+    | _, _ => .atom "bad-op"
+  | .list [.atom "reader", variant, impl, nrows, q, e] =>
+    let legacy? : Option Bool := match variant with
+      | .atom "legacy" => some true | .atom "fixed" => some false | _ => none
+    match legacy?, impl? impl, nrows.nat?, fields? q, fields? e with
+    | some legacy, some dense, some nrows, some q, some e =>
+      let rows := (List.range nrows).map (fun r => (List.range e.length).map (fun c => Term.cell r c))
+      match readerCall Term.cast legacy q e (mkTab dense e.length rows) with
+      | .missing => .atom "missing"
+      | .indexError => .atom "index-error"
+      | .data t =>
+        let tag := match t with | .dense _ => "dense" | .frame _ => "frame"
+        .list [.atom "data", .atom tag, ofMatrix Term.toSexp t.toColumns]
+    | _, _, _, _, _ => .atom "bad-op"
+  | .list [.atom "take", axis, impl, ncols, rows, idx] =>
+    let rowsAxis? : Option Bool := match axis with
+      | .atom "rows" => some true | .atom "cols" => some false | _ => none
+    match rowsAxis?, impl? impl, ncols.nat?, rows? rows, idx.intList? with
+    | some rowsAxis, some dense, some ncols, some rows, some idx =>
+      if !rectangular ncols rows then .atom "bad-op" else
+      let t := mkTab dense ncols rows
+      match (if rowsAxis then t.takeRows idx else t.takeColumns idx) with
+      | none => .atom "index-error"
+      | some r => .list [.atom "ok", ofMatrix Sexp.ofInt r.toRows, ofMatrix Sexp.ofInt r.toColumns]
+    | _, _, _, _, _ => .atom "bad-op"
+  | .list [.atom "slicer", impl, ncols, rows, nf, nl] =>
+    let nl? : Option (Option Nat) := match nl with
+      | .atom "none" => some none | x => x.nat?.map some
+    match impl? impl, ncols.nat?, rows? rows, nf.nat?, nl? with
+    | some dense, some ncols, some rows, some nf, some nl =>
+      if !rectangular ncols rows then .atom "bad-op" else
+      let (fs, ls) := slicerPositions nf nl
+      match slicer fs ls (mkTab dense ncols rows) with
+      | none => .atom "index-error"
+      | some (f, .inl c) => .list [.atom "ok", ofMatrix Sexp.ofInt f, .list [.atom "scalar", .list (c.map Sexp.ofInt)]]
+      | some (f, .inr l) => .list [.atom "ok", ofMatrix Sexp.ofInt f, .list [.atom "vector", ofMatrix Sexp.ofInt l]]
+    | _, _, _, _, _ => .atom "bad-op"
+  | _ => .atom "bad-op"
+
+def main : IO Unit := driverLoop stepC15
